@@ -46,7 +46,7 @@ NATIVE_WRITERS = r'''
                 if after.len() != pre.len().max(k + n) { fails.push("writers.extra"); continue; }
                 if after[k..k + n] != want[..] || after[..k] != pre[..k] || after[k + n..] != pre[(k + n).min(pre.len())..] { fails.push("writers.bytes"); }
             }
-            for c in [n.saturating_sub(3), n - 1, n, n + 2] {
+            for c in [n.saturating_sub(3), n.saturating_sub(2), n - 1, n, n + 2] {
                 let mut store = vec![0xEEu8; c];
                 let r = {
                     let mut cur = Cursor::new(&mut store[..]);
@@ -75,8 +75,8 @@ NATIVE_WRITERS = r'''
 def tasks(tier, params):
     part = params.get('part')
     out = []
-    names = ['q2_shared', 'an_ns_ptr', 'mx_srv', 'opt_and_ar', 'soa_minfo'] + (['rp_afsdb_rt', 'nocompress', 'cname_chain'] if tier == 'thorough' else [])
-    ptr_only = ['straddle', 'far']
+    names = ['q2_shared', 'an_ns_ptr', 'mx_srv', 'opt_and_ar', 'opt_only', 'soa_minfo'] + (['rp_afsdb_rt', 'nocompress', 'cname_chain'] if tier == 'thorough' else [])
+    ptr_only = ['straddle', 'far', 'edge16383', 'edge16384']
     scs = dict(scenarios(tier))
     for n in names:
         if n not in scs:
@@ -147,7 +147,7 @@ def run_task(prog, tid, params, tier):
                     r = I.call_function(f, [pref, Ref(cur)], {'T': 'std::io::Cursor<Vec<u8>>'})
                     results.append((mode, 'cursor', k, pre, r, list(cur.v.inner.items), None))
                 # (b) fixed-size writers of capacity c
-                for c in (max(0, n - 3), n - 1, n, n + 2):
+                for c in (max(0, n - 3), max(0, n - 2), n - 1, n, n + 2):
                     store = [g.fresh('u8', 'st') for _ in range(c)]
                     cell = Cell(Agg('array', store), 'fixed')
                     sl = SliceRef(Ref(cell), mk('usize', 0), mk('usize', c))
